@@ -333,6 +333,19 @@ namespace c09
         static bool is_container() { return true; }
         static std::string show(const V1 &v) { return "V1{" + std::to_string(v.c.id) + ",str[" + std::to_string(v.c.label.size()) + "]}"; }
     };
+    // a reflectable marker type without members: its encoding is empty, a list of n of them is just the count n
+    struct Marker
+    {
+        template <class R> void reflect(R &) {}
+    };
+    template <> struct Ref<Marker>
+    {
+        static Marker gen(kit::Rng &, GenCfg &) { return Marker(); }
+        static void enc(const Marker &, std::string &) {}
+        static bool eq(const Marker &, const Marker &) { return true; }
+        static bool is_container() { return false; }
+        static std::string show(const Marker &) { return "Marker"; }
+    };
     struct P1
     {
         static const char *apiname() { return "archive"; }
@@ -542,6 +555,7 @@ namespace c09
         T1(std::vector<S6>, 1, true);
         T1(S7, 0, false);
         T1(std::vector<S7>, 1, true);
+        T1(std::vector<Marker>, 1, true);
         T1(V1, 1, false);
         T1(std::vector<V1>, 2, true);
 #undef T1
